@@ -27,6 +27,14 @@ func CharAlphabet() []string {
 // type); used one leaf at a time while the rest of a tree stays at baseline.
 func FullVals(l meta.Leafable) []val.Value {
 	t := l.Type()
+	if t.Format().Single() == val.FmtLeafRef {
+		// values of the leaf referred to (scalar alphabet, list forms built below)
+		return fullValsOf(t.Resolve(), t.Format().IsList())
+	}
+	return fullValsOf(t, t.Format().IsList())
+}
+
+func fullValsOf(t *meta.Type, asList bool) []val.Value {
 	var out []val.Value
 	single := t.Format().Single()
 	switch single {
@@ -101,7 +109,7 @@ func FullVals(l meta.Leafable) []val.Value {
 	case val.FmtUnion:
 		out = append(out, val.Int32(5), val.Int32(-1), val.String("x"), val.String(""), val.String("a b"))
 	}
-	if !t.Format().IsList() {
+	if !asList {
 		return out
 	}
 	// leaf-lists: one element, three elements (first, last, middle of the scalar alphabet), all elements
